@@ -22,9 +22,13 @@ META = dict(
         "work is counted as Python call/c_call events (sys.setprofile); work inside Cython/C code is invisible to the counter and "
         "only bounded by the 15 s CPU limit",
     ],
-    floors={"nontrivial": (0.3, None), "db": (0.2, None), "class:entity": (0.05, None), "kind:nest": (0.1, None)},
+    floors={"nontrivial": (0.3, None), "db": (0.2, None), "class:entity": (0.05, None), "kind:nest": (0.1, None), "kind:mutdoc": (0.1, None)},
     stall_s=180,
 )
+
+
+FUZZ_IMPORTS = ["mwlib.parser.refine.uparser", "mwlib.parser.refine.core", "mwlib.parser.refine.compat", "mwlib.parser.expander",
+                "mwlib.parser.refine.parse_table", "mwlib.parser.refine.tagparser", "mwlib.parser.styleanalyzer", "mwlib.parser.nodes"]
 
 
 def evaluate(ctx, case, record=True):
@@ -84,7 +88,7 @@ def run_shard(ctx):
         tree, work = evaluate(ctx, case)
         text = _tree.text_of(case)
         markup_classes = [c for c in case["classes"] if c not in ("text", "free", "line")]
-        nt = tree is not None and (len(markup_classes) >= 2 or case["kind"] == "nest") and has_structure(tree)
+        nt = tree is not None and (len(markup_classes) >= 2 or case["kind"] in ("nest", "mutdoc")) and has_structure(tree)
         labels = ["lang:" + case["lang"], "kind:" + case["kind"], "db" if case["db"] is not None else "no-db"]
         labels += ["class:" + c for c in case["classes"]]
         if case["depth"]:
@@ -100,6 +104,7 @@ def run_shard(ctx):
             target(work / (len(text) + 50.0))
 
     ctx.run_given(t)
+    ctx.fuzz_campaign("", (0, 640000))
 
     # growth law on short units
     @ctx.settings(ctx.n(480, 8000))
